@@ -296,12 +296,25 @@ def Cfg.cutIn (g : Cfg) (i : Nat) : Cfg :=
 
 def deadStep (g : Cfg) (i : Nat) : Cfg :=
   let n := (g.get i).node
-  if n.isReturn || n.isIndirectJump || n.isAnyEntry || n.mightTerminate then g
+  if n.isReturn || n.isIndirectJump || n.isAnyEntry then g
   else
-    let g1 := if (g.get i).nexts.isEmpty then g.cutIn i else g
+    -- (an ecall may end the program: it is no dead end; an ecall nothing reaches is cut off like any node)
+    let g1 := if (g.get i).nexts.isEmpty && !n.mightTerminate then g.cutIn i else g
     if (g1.get i).prevs.isEmpty then g1.cutOut i else g1
 
-def deadCode (g : Cfg) : Cfg := (List.range g.nodes.size).foldl deadStep g
+def deadSweep (g : Cfg) : Cfg := (List.range g.nodes.size).foldl deadStep g
+
+/-- number of successor and predecessor entries: a sweep that cuts nothing leaves it unchanged -/
+def edgeCount (g : Cfg) : Nat := g.nodes.toList.foldl (fun a cn => a + cn.nexts.length + cn.prevs.length) 0
+
+/-- `while changed { sweep }`: a sweep that removed an edge is followed by another one -/
+def deadLoop : Nat → Cfg → Cfg
+  | 0, g => g
+  | fuel + 1, g =>
+    let g' := deadSweep g
+    if edgeCount g' == edgeCount g then g' else deadLoop fuel g'
+
+def deadCode (g : Cfg) : Cfg := deadLoop (edgeCount g + 1) g
 
 /-! ### `EcallTerminationPass` -/
 
